@@ -74,8 +74,7 @@ func NewValue(typ *meta.Type, v interface{}) (val.Value, error) {
 	case val.FmtEnumList:
 		return toEnumList(typ.Enum(), v)
 	case val.FmtUnion:
-		cvt, _, err := val.ConvOneOf(typ.UnionFormats(), v)
-		return cvt, err
+		return toUnionMember(typ, v)
 	case val.FmtUnionList:
 		return toUnionList(typ, v)
 	case val.FmtLeafRef, val.FmtLeafRefList:
@@ -188,6 +187,24 @@ func toEnum(src val.EnumList, v interface{}) (val.Enum, error) {
 		}
 	}
 	return val.Enum{}, fmt.Errorf("could not coerce '%v' into enum %v", v, src.String())
+}
+
+// toUnionMember converts v to the first member type of the union that takes it,
+// restrictions of the member (range, length, pattern, enums, bits ...) included
+func toUnionMember(typ *meta.Type, v interface{}) (val.Value, error) {
+	if v == nil {
+		return nil, nil
+	}
+	for _, member := range typ.Union() {
+		cvt, err := NewValue(member, v)
+		if err != nil || cvt == nil {
+			continue
+		}
+		if err = (fieldConstraints{}).checkValue(cvt, member); err == nil {
+			return cvt, nil
+		}
+	}
+	return nil, fmt.Errorf("could not convert %v to any of the allowed types", v)
 }
 
 func toUnionList(typ *meta.Type, v interface{}) (val.Value, error) {
